@@ -298,3 +298,33 @@ class FreshPatternTable:
 
     def parse(self, file_path):
         return self._pattern("x").findall(_read(file_path)) + self._pattern("y").findall(_read(file_path))
+
+
+class _Resolver:
+    def __init__(self):
+        self._names = {}
+
+    def learn(self, content):
+        for word in content.split():
+            self._names[word[:1]] = word
+
+    def __call__(self, key):
+        return self._names.get(key, key)
+
+
+class StatefulCallableObjectKept:
+    def __init__(self):
+        self._resolve = _Resolver()
+
+    def parse(self, file_path):
+        content = _read(file_path)
+        self._resolve.learn(content)
+        return [self._resolve(w) for w in content.split()]
+
+
+class FreshCallableObjectPerCall:
+    def parse(self, file_path):
+        content = _read(file_path)
+        resolve = _Resolver()
+        resolve.learn(content)
+        return [resolve(w) for w in content.split()]
